@@ -285,7 +285,7 @@ theorem tail_out (c : SCfg) (s : SState) (tb up : Bool) (out : List Batch) :
 
 theorem stepItemTxn_ok (c : SCfg) (s : SState) (t : Txn) (nf : Bool) (it : Item) (prev : Int)
     (hq : QOk s.queue prev) (hle : prev ≤ s.lastOffset)
-    (hlt : t ≠ .commit → prev < s.lastOffset) (hit : it.offset = s.lastOffset)
+    (hlt : forwards t = true → prev < s.lastOffset) (hit : it.offset = s.lastOffset)
     (hp : it.cmd ≠ bPing) :
     StepOK s.queue prev (stepItemTxn c s t nf it prev).1.queue s.lastOffset
       (keys (stepItemTxn c s t nf it prev).2) ∧
@@ -304,7 +304,7 @@ theorem stepItemTxn_ok (c : SCfg) (s : SState) (t : Txn) (nf : Bool) (it : Item)
       split
       · -- enqueue
         rename_i hten
-        have hlt' := hlt hten.2
+        have hlt' := hlt (by simp [forwards, hten.1, hten.2])
         have := stepOK_trans h1 (enqueue_stepOK hq1 it (by omega) hp)
         simpa [enqueue, hit] using this
       · split
@@ -328,7 +328,7 @@ theorem stepItemTxn_ok (c : SCfg) (s : SState) (t : Txn) (nf : Bool) (it : Item)
 
 theorem stepItemPlain_ok (c : SCfg) (s : SState) (t : Txn) (it : Item) (prev : Int)
     (hq : QOk s.queue prev) (hle : prev ≤ s.lastOffset)
-    (hlt : t ≠ .commit → prev < s.lastOffset) (hit : it.offset = s.lastOffset)
+    (hlt : forwards t = true → prev < s.lastOffset) (hit : it.offset = s.lastOffset)
     (hp : it.cmd ≠ bPing) :
     StepOK s.queue prev (stepItemPlain c s t it).1.queue s.lastOffset
       (keys (stepItemPlain c s t it).2) ∧
@@ -341,8 +341,8 @@ theorem stepItemPlain_ok (c : SCfg) (s : SState) (t : Txn) (it : Item) (prev : I
         (qok_weaken hq hle)
       have := stepOK_trans (stepOK_relabel s.queue hq hle) h3
       exact ⟨by simpa using this, hl3⟩
-    · rename_i htc
-      have hlt' := hlt htc
+    · rename_i htb htc
+      have hlt' := hlt (by simp [forwards, htb, htc])
       have he := enqueue_stepOK hq it (by omega) hp
       rw [hit] at he
       obtain ⟨h3, hl3⟩ := tail_stepOK c (enqueue s it) c.txnMode (c.resume && c.txnMode)
@@ -382,9 +382,11 @@ theorem txnStatus_exec (p : Txn) : (txnStatus bExec p).1 = .commit := by
   cases p <;> decide
 
 /-- **One iteration keeps the wire ordered.** Item offsets never decrease; only an
-    `EXEC` (never queued) may repeat the previous item's offset. -/
+    item that is not queued (a transaction bracket) may repeat the previous
+    item's offset. -/
 theorem step_ok (c : SCfg) (s : SState) (ev : Ev) (hq : QOk s.queue s.lastOffset)
-    (hlt : ∀ it, ev = .item it → s.lastOffset ≤ it.offset ∧ (it.cmd ≠ bExec → s.lastOffset < it.offset)) :
+    (hlt : ∀ it, ev = .item it → s.lastOffset ≤ it.offset ∧
+      (it.cmd ≠ bPing → forwards (txnStatus it.cmd s.txn).1 = true → s.lastOffset < it.offset)) :
     StepOK s.queue s.lastOffset (step c s ev).1.queue (step c s ev).1.lastOffset
       (keys (step c s ev).2) := by
   have plain : ∀ (s0 : SState) tb up, s0.queue = s.queue → s0.lastOffset = s.lastOffset →
@@ -396,12 +398,11 @@ theorem step_ok (c : SCfg) (s : SState) (ev : Ev) (hq : QOk s.queue s.lastOffset
   cases ev with
   | item it =>
     obtain ⟨hn, hne⟩ := hlt it rfl
-    have hcm : (txnStatus it.cmd s.txn).1 ≠ .commit → s.lastOffset < it.offset :=
-      fun h => hne (fun he => h (by rw [he]; exact txnStatus_exec s.txn))
     simp only [step]
     split
     · exact stepOK_relabel s.queue hq hn
     · rename_i hp
+      have hcm : forwards (txnStatus it.cmd s.txn).1 = true → s.lastOffset < it.offset := hne hp
       unfold stepItem
       simp only
       split
